@@ -202,7 +202,7 @@ func sample(t reflect.Type, n int, depth int) reflect.Value {
 		return p
 	case reflect.Interface:
 		if t.NumMethod() == 0 {
-			return reflect.ValueOf(&anySample).Elem()
+			return reflect.ValueOf(&[]any{anySample}[0]).Elem()
 		}
 	case reflect.Struct:
 		if t == reflect.TypeOf(core.GlobalMeta{}) {
@@ -315,7 +315,7 @@ func synthOne(recv reflect.Value, name string, t reflect.Type, variant int) refl
 			if schemaArgMethods[name] {
 				return str.Convert(tAny)
 			}
-			return reflect.ValueOf(&anySample).Elem()
+			return reflect.ValueOf(&[]any{anySample}[0]).Elem()
 		}
 		if str.Type().Implements(t) {
 			return str.Convert(t)
@@ -790,12 +790,12 @@ func ErrCanon(err error) string {
 		v = v.Elem()
 	}
 	if v.Kind() == reflect.Struct {
-		if is := v.FieldByName("Issues"); is.IsValid() && is.Kind() == reflect.Slice {
+		if is := fieldOf(v, "Issues"); is.IsValid() && is.Kind() == reflect.Slice {
 			for i := 0; i < is.Len(); i++ {
 				it := is.Index(i)
 				var parts []string
 				for _, f := range []string{"Code", "Path"} { // never message texts (map-order dependent key lists)
-					if fv := it.FieldByName(f); fv.IsValid() {
+					if fv := fieldOf(it, f); fv.IsValid() {
 						parts = append(parts, Canon(fv.Interface()))
 					}
 				}
@@ -806,6 +806,40 @@ func ErrCanon(err error) string {
 		}
 	}
 	return "plain-error" // wrapped non-Zod errors carry map-order dependent texts: verdict only
+}
+
+// fieldOf is v.FieldByName(name) with the lookup cached per struct type (FieldByName walks embedded structs on
+// every call; the issue lists are rendered millions of times).
+var fieldIdx sync.Map // fieldKey -> []int (nil: no such field)
+
+type fieldKey struct {
+	t reflect.Type
+	n string
+}
+
+func fieldOf(v reflect.Value, name string) reflect.Value {
+	if v.Kind() != reflect.Struct {
+		return reflect.Value{}
+	}
+	k := fieldKey{v.Type(), name}
+	ix, ok := fieldIdx.Load(k)
+	if !ok {
+		var index []int
+		if f, has := v.Type().FieldByName(name); has {
+			index = f.Index
+		}
+		fieldIdx.Store(k, index)
+		ix = index
+	}
+	index := ix.([]int)
+	if index == nil {
+		return reflect.Value{}
+	}
+	fv, err := v.FieldByIndexErr(index)
+	if err != nil {
+		return reflect.Value{}
+	}
+	return fv
 }
 
 func hash(s string) uint32 {
